@@ -960,7 +960,7 @@ func (r *vRun) windDown(closeStarted bool) error {
 }
 
 // predicates evaluates the property on the complete real history after Close returned (X02a, X02b, X02e).
-func (d *vDrv) predicates(w int) error {
+func (d *vDrv) predicates(w int, idOrder bool) error {
 	d.mu.Lock()
 	defer d.mu.Unlock()
 	if n := atomic.LoadInt32(&d.afterDone); n != 0 {
@@ -990,7 +990,17 @@ func (d *vDrv) predicates(w int) error {
 					return &vMismatch{"x02b:round-robin:" + def.mode, fmt.Sprintf("%s/%s#%d: destination calls %v do not walk the %d destinations cyclically", k.rp, k.name, in.ord, att, n)}
 				}
 			}
-			if w == 1 && !sort.IntsAreSorted(order) {
+			if w == 1 && !idOrder {
+				// stress: batch id = sender * 100000 + sequence number; a sender's batches enter Points() in order
+				last := map[int]int{}
+				for _, b := range order {
+					if b%100000 < last[b/100000] {
+						return &vMismatch{"x02c:reordered:" + def.mode, fmt.Sprintf("%s/%s#%d: batches of sender %d attempted in order %v", k.rp, k.name, in.ord, b/100000, order)}
+					}
+					last[b/100000] = b % 100000
+				}
+			}
+			if w == 1 && idOrder && !sort.IntsAreSorted(order) {
 				return &vMismatch{"x02c:reordered:" + def.mode, fmt.Sprintf("%s/%s#%d: batches attempted in order %v", k.rp, k.name, in.ord, order)}
 			}
 			for b, as := range per {
@@ -1106,7 +1116,7 @@ func vReplayOne(t *testing.T, b *vBeh, idx int) (err error, steps int) {
 	}
 	select {
 	case <-d.closeDone:
-		if e := d.predicates(b.W); e != nil {
+		if e := d.predicates(b.W, true); e != nil {
 			if _, ok := first.(*vMismatch); !ok {
 				first = e
 			}
@@ -1234,9 +1244,9 @@ func TestVerifSubscriberReplay(t *testing.T) {
 
 // ---------------------------------------------------------------------------------------------- stress
 
-// TestVerifSubscriberStress: real scheduling.  Senders go through the protocol of coordinator.PointsWriter
-// (non-blocking send under RLock, Close nils the channel under Lock, then Service.Close: the order of
-// cmd/influxd/run/server.go), a metadata goroutine creates/drops/redefines subscriptions with the semantics of
+// TestVerifSubscriberStress: real scheduling.  Senders write through a real coordinator.PointsWriter
+// (WritePointsPrivileged -> non-blocking send to Service.Points() under its RLock; PointsWriter.Close, then
+// Service.Close: the order of cmd/influxd/run/server.go), a metadata goroutine creates/drops/redefines subscriptions with the semantics of
 // meta.Client (close + replace the changed channel), destinations answer at once (ok / error / after a yield).
 // Checked: no panic, no data race (-race), property predicates on the full history, statistics against the fakes'
 // own counts, no destination call after Close returned, goroutine count back to the level before Open.
@@ -1271,6 +1281,27 @@ func TestVerifSubscriberStress(t *testing.T) {
 		t.Fail()
 	}
 }
+
+type vPWMeta struct{}
+
+func (vPWMeta) NodeID() uint64 { return 1 }
+func (vPWMeta) Database(name string) *meta.DatabaseInfo {
+	return &meta.DatabaseInfo{Name: name, DefaultRetentionPolicy: "rp0"}
+}
+func (vPWMeta) RetentionPolicy(database, policy string) (*meta.RetentionPolicyInfo, error) {
+	return &meta.RetentionPolicyInfo{Name: policy, ReplicaN: 1}, nil
+}
+func (vPWMeta) CreateShardGroup(database, policy string, timestamp time.Time) (*meta.ShardGroupInfo, error) {
+	return &meta.ShardGroupInfo{ID: 1, StartTime: time.Unix(-1000, 0), EndTime: time.Unix(1<<40, 0),
+		Shards: []meta.ShardInfo{{ID: 1, Owners: []meta.ShardOwner{{NodeID: 1}}}}}, nil
+}
+
+type vPWStore struct{}
+
+func (vPWStore) CreateShard(database, retentionPolicy string, shardID uint64, enabled bool) error {
+	return nil
+}
+func (vPWStore) WriteToShard(shardID uint64, points []models.Point) error { return nil }
 
 type vStressDest struct {
 	d     *vDrv
@@ -1345,10 +1376,12 @@ func vStressRound(t *testing.T, seed int64, round int) (err error, ncalls int) {
 	if e := s.Open(); e != nil {
 		return &vInfra{e.Error()}, 0
 	}
-	// PointsWriter protocol
-	var pwmu sync.RWMutex
-	subPoints := []chan<- *coordinator.WritePointsRequest{s.Points()}
-	var nextB int64
+	// the real coordinator.PointsWriter in front of the service (one local shard, a store that accepts everything)
+	pw := coordinator.NewPointsWriter()
+	pw.MetaClient = vPWMeta{}
+	pw.TSDBStore = vPWStore{}
+	pw.Open()
+	pw.AddWriteSubscriber(s.Points())
 	var sentMu sync.Mutex
 	var wg sync.WaitGroup
 	stopMeta := make(chan struct{})
@@ -1357,11 +1390,12 @@ func vStressRound(t *testing.T, seed int64, round int) (err error, ncalls int) {
 	for g := 0; g < nsend; g++ {
 		wg.Add(1)
 		lr := rand.New(rand.NewSource(seed + int64(g) + 1))
+		g := g
 		go func() {
 			defer wg.Done()
 			defer guard("sender")
 			for i := 0; i < per; i++ {
-				b := int(atomic.AddInt64(&nextB, 1))
+				b := (g+1)*100000 + i + 1
 				rp := []string{"r1", "r2"}[lr.Intn(2)]
 				p := d.rpmap[rp]
 				req := &coordinator.WritePointsRequest{Database: p[0], RetentionPolicy: p[1],
@@ -1369,14 +1403,11 @@ func vStressRound(t *testing.T, seed int64, round int) (err error, ncalls int) {
 				sentMu.Lock()
 				d.sent[b] = rp
 				sentMu.Unlock()
-				pwmu.RLock()
-				for _, ch := range subPoints {
-					select {
-					case ch <- req:
-					default:
-					}
+				rpArg := p[1]
+				if p[1] == "rp0" && lr.Intn(3) == 0 {
+					rpArg = "" // the default retention policy is resolved by the PointsWriter
 				}
-				pwmu.RUnlock()
+				pw.WritePointsPrivileged(p[0], rpArg, models.ConsistencyLevelOne, req.Points)
 				if lr.Intn(4) == 0 {
 					runtime.Gosched()
 				}
@@ -1409,11 +1440,7 @@ func vStressRound(t *testing.T, seed int64, round int) (err error, ncalls int) {
 	go func() {
 		defer close(closeDone)
 		defer guard("close")
-		pwmu.Lock() // coordinator.PointsWriter.Close
-		subPoints = nil
-		pwmu.Unlock()
-		// statistics of the running subscriptions against the fakes' own counts (destinations are quiet only
-		// once the service is closed, so: what the service reports can never exceed what the fakes saw later)
+		pw.Close() // the order of cmd/influxd/run/server.go: PointsWriter first
 		s.Close()
 		atomic.StoreInt32(&d.closeRet, 1)
 	}()
@@ -1435,7 +1462,7 @@ func vStressRound(t *testing.T, seed int64, round int) (err error, ncalls int) {
 		}
 		return &vInfra{fmt.Sprintf("goroutine count %d -> %d, none in the subscriber", base, n)}, 0
 	}
-	if e := d.predicates(c.WriteConcurrency); e != nil {
+	if e := d.predicates(c.WriteConcurrency, false); e != nil {
 		return e, 0
 	}
 	// service level statistics against the history the fakes recorded
